@@ -641,7 +641,7 @@ def panic_weak_items(prop, tier, seed):
 
 def items_C05(tier, seed, P):
     return (weak_graph_items('C05', tier, seed, {'C05'}, opts={'panics_ok': True}) + consume_weak_items('C05', tier, seed)
-            + panic_weak_items('C05', tier, seed) + weak_api_items('C05', tier, seed, {'C05', 'C06'}) + lemma_items('C05', ['downgrade', 'weakdrop']))
+            + panic_weak_items('C05', tier, seed) + weak_api_items('C05', tier, seed, {'C05'}) + lemma_items('C05', ['downgrade', 'weakdrop']))
 
 
 PROPS['C05'] = dict(items=items_C05, bounds=BOUNDS_GRAPH, outside=OUTSIDE, vacuity=vac_paths('dtor', 'multi_destroy_ops', 'upgrade:some', 'upgrade:none', 'try_unwrap:ok', 'make_mut:moved'), replay_oracles=['C05'])
